@@ -71,10 +71,14 @@ type TermStore struct {
 	facts  map[int][]*Term // lazily attached well-formedness facts, keyed by term id
 	fresh  map[string]int
 	axioms []*Term // global quantified axioms (spec function definitions etc.)
+	// hooks attach well-formedness facts to applications of a symbol that were not created through
+	// the heap layer (e.g. by substitution of a bound variable)
+	hooks   map[string]func(*Term)
+	hooked  map[int]bool
 }
 
 func NewTermStore() *TermStore {
-	return &TermStore{tab: map[string]*Term{}, ufs: map[string]*ufDecl{}, vars: map[string]*Term{}, facts: map[int][]*Term{}, fresh: map[string]int{}}
+	return &TermStore{tab: map[string]*Term{}, ufs: map[string]*ufDecl{}, vars: map[string]*Term{}, facts: map[int][]*Term{}, fresh: map[string]int{}, hooks: map[string]func(*Term){}, hooked: map[int]bool{}}
 }
 
 var TS = NewTermStore()
@@ -812,6 +816,12 @@ func (q *Query) Render(produceModels bool) (string, map[string]*Term) {
 			visit(a)
 		}
 		order = append(order, t)
+		if t.op == "app" && !t.bound && !TS.hooked[t.id] {
+			TS.hooked[t.id] = true
+			if hk, ok := TS.hooks[t.name]; ok {
+				hk(t)
+			}
+		}
 		if fs, ok := TS.facts[t.id]; ok {
 			pendingFacts = append(pendingFacts, fs...)
 		}
